@@ -246,10 +246,26 @@ def rule_memgate(ctx, prop: str) -> RuleResult:
     for kind, node, facts in an.exits:
         if kind == "return" and isinstance(node, ast.Return):
             txt = ast.unparse(node.value) if node.value is not None else ""
-            if "self.env[" in txt and "guard:can_read" not in facts and "guard:is_indexable" not in facts:
-                # control-typed reads return before the gate; they are identified by the
-                # test that leads there
-                pass
+            if "guard:can_read" in facts:
+                continue
+            # control-typed reads (index, size, bool, stride values) return before the gate; they are
+            # identified by the test that leads there.  Any other return yields the text of a read of a
+            # NUMERIC buffer (`*x`, `x`, x[...]) and must lie behind the gate as well — scalars included
+            res.instances += 1
+            res.nontrivial += 1
+            p_ = parent(node)
+            ctl = False
+            while p_ is not None and p_ is not fake:
+                if isinstance(p_, ast.If) and any(node in ast.walk(s_) for s_ in p_.body) and any(isinstance(k, ast.Call) and last_name(k) == "is_indexable" for k in ast.walk(p_.test)):
+                    ctl = True
+                    break
+                p_ = parent(p_)
+            res.ob(ctl)
+            res.sample(f"comp_e Read: `return {txt[:40]}` before the can_read() gate is the control-typed case: {ctl}")
+            if not ctl:
+                res.add(Finding("MEMGATE", COMP, node.lineno, f.qualname, f"return<-can_read:{txt[:30]}",
+                                f"`return {txt[:50]}` emits a read of a numeric buffer on a path that never passed `if not mem.can_read(): raise`: a scalar living in an unreadable memory "
+                                f"is read directly instead of being rejected with MemGenError"))
     # writes / reduces
     g = ix.func(COMP, "Compiler.comp_s")
     res.analysed.append(f"{COMP}:Compiler.comp_s")
